@@ -437,3 +437,63 @@ def reset_side_conditions(ctx, prog):
                 ok = ie[0] == "bin" and ie[1] == "Sub" and const_named(ie[2], "block_hash::FULL_SIZE") and const_value(ie[3]) == 1
                 ctx.ob(R, "finalize_raw_internal reads context.blockhash[i] element-wise only at i = FULL_SIZE-1", ok, "index %s" % show(ie), f.loc(s["sp"]))
     ctx.floor(R, n, 2, "element reads of BlockHashContext::blockhash in finalize_raw_internal")
+
+
+# ---- who writes which generator field --------------------------------------------------------------------------------
+FIELD_WRITERS = {
+    # field -> functions (path suffixes) allowed to store it; constructors/reset always allowed
+    "input_size": ("Generator::update", "Generator::update_by_iter", "Generator::update_by_byte"),
+    "fixed_size": ("Generator::set_fixed_input_size",),
+    "bhidx_end_limit": ("Generator::set_fixed_input_size",),
+    "elim_border": ("Generator::update", "Generator::update_by_iter", "Generator::update_by_byte"),
+    "bhidx_start": ("Generator::update", "Generator::update_by_iter", "Generator::update_by_byte"),
+    "bhidx_end": ("Generator::update", "Generator::update_by_iter", "Generator::update_by_byte"),
+    "roll_mask": ("Generator::update", "Generator::update_by_iter", "Generator::update_by_byte"),
+    "h_last": ("Generator::update", "Generator::update_by_iter", "Generator::update_by_byte"),
+    "is_last": ("Generator::update", "Generator::update_by_iter", "Generator::update_by_byte"),
+}
+ALWAYS = ("Generator::new", "Generator::reset", "generate::tests", "make_generator_with_prefix_zeroes")
+
+
+def field_writers(ctx, prog):
+    """who-may-write census over GeneratorInnerData: the declaration (fixed_size, bhidx_end_limit) is written only by
+    set_fixed_input_size, the processed size only by the update forms, the engine state only by the update forms; new/reset
+    write everything.  Hence finalisers, queries and refusals cannot alter the state, and the hint is only ever set by the
+    one validated entry point."""
+    R = "SA-WHOWRITES"
+    ctx.rule(R, "who-may-write census over the generator's fields (all stores in all MIR bodies whose place projects a field of GeneratorInnerData): each field is stored only by its designated functions (new/reset excepted)")
+    n = 0
+    owner = "internals::generate::GeneratorInnerData"
+    for f in prog.fns:
+        for i, j, s in f.stmts():
+            if s["s"] != "assign":
+                continue
+            fl = [e for e in s["lhs"]["p"] if isinstance(e, dict) and "f" in e and e.get("of") == owner]
+            if not fl:
+                continue
+            fld = fl[0]["n"]
+            # sub-field stores (roll_hash.*, bh_context[..].*) belong to the engine/primitive rules
+            if fld not in FIELD_WRITERS:
+                if fld in ("roll_hash", "bh_context"):
+                    allowed = FIELD_WRITERS["elim_border"]
+                else:
+                    allowed = ()
+            else:
+                allowed = FIELD_WRITERS[fld]
+            n += 1
+            ok = f.path.endswith(allowed) or any(a in f.path for a in ALWAYS)
+            ctx.visit(f)
+            ctx.ob(R, "%s stores generator field %s" % (f.short, fld), ok,
+                   "designated writer" if ok else "field `%s` may only be written by %s (and new/reset)" % (fld, ", ".join(a.split("::")[-1] for a in allowed)), f.loc(s["sp"]))
+        # &mut hand-offs of whole sub-objects (roll_hash.update_by_byte(..), bh_context[i].reset()) outside the engine
+        for i, t in f.calls():
+            for a in t["args"]:
+                if a["k"] in ("copy", "move") and a["pl"]["ty"].startswith("&mut") and ("generate::BlockHashContext" in a["pl"]["ty"] or "RollingHash" in a["pl"]["ty"] or "PartialFNVHash" in a["pl"]["ty"]):
+                    # is it a field of the generator?
+                    e = Sym(f).operand(a)
+                    r, names = fpath(e)
+                    if names and names[0] == "0" and r[0] == "param" and "Generator" in f.locals[r[1]]["ty"]:
+                        n += 1
+                        ok = f.path.endswith(FIELD_WRITERS["elim_border"]) or any(x in f.path for x in ALWAYS)
+                        ctx.ob(R, "%s hands out &mut of generator sub-object %s" % (f.short, ".".join(names[1:2])), ok, "callee %s" % callee_of(t).split("::")[-1], f.loc(t["sp"]))
+    ctx.floor(R, n, 30, "stores / &mut hand-offs of generator state")
